@@ -1,9 +1,124 @@
 (* Props/C07.v -- C07: a re-exported object is documented once, where exported, and stays reachable.
-   (work in progress: witnesses first) *)
+
+   Model: Model/Project.v + Model/Linker.v.  Static reading of the project: Spec/ProjectStatic.v
+   (`moved_key p R D ix n o` = the qualified name of object o once x = (D, ix, 0) has been re-exported by R as n).
+
+   PROVED for every project and EVERY schedule (no bound):
+     C07_moved_once -- module R has a module-level `from <D> import ..., x as n, ...` (absolute or relative; n = x for a
+        plain import) and lists n in its __all__; D defines x, does not list it in its own __all__ and makes no
+        from-imports itself (so it cannot depend on R); n is imported once in R; no other import of the project
+        re-exports; qualified names are distinct before and after the move.  Then the final registry is exactly the
+        static one with x AND EVERYTHING BELOW IT registered under R.n (nothing under D.x), `contents` of D lacks x,
+        `contents` of R has n, and D keeps the alias x -> R.n.
+     C07_reach_via_reexporter_partial, C07_reach_via_module_alias_partial, C07_find_object_old_name_partial -- on ANY
+        state in which the moved object is registered as k1 and D keeps the alias x -> k1 (what C07_moved_once
+        establishes), a scope whose alias map sends a name to k1 (what `from R import n` writes), a scope that knows D
+        under a module alias, and System.find_object with the old qualified name (D a root module) get the moved object:
+        name expansion, resolveName and link_to.  PARTIAL: that the consumer's alias map in the final state is the one
+        its import statements write (DESIGN.md C06_alias_maps_syntactic) is a hypothesis here, not proved.
+   REFUTED on the faithful model (known finding C07-stale-defining-module-name):
+     C07_reach_via_defining_module_refuted -- `from D import x` in a consumer: the name, a base class, link_to are
+        unresolved under every schedule.
+   NOT PROVED (sampled by the correspondence check + oracle only): the star-import form of the re-export, a defining
+   module that itself has from-imports (no cycle with R), several re-exports in one project. *)
 From Coq Require Import ZArith NArith List Bool Permutation.
-From PydoctorVerif Require Import Base.Sexp Model.Project Model.Linker.
+From PydoctorVerif Require Import Base.Sexp Model.Project Model.Linker Spec.ProjectStatic
+     Proofs.ProjectBase Proofs.ProjectRegistry Proofs.ProjectStaticCheck Proofs.ProjectMove Proofs.LinkerProofs.
 Import ListNotations.
 Local Open Scope N_scope.
+
+Theorem C07_moved_once :
+  forall (p : project) (R D ix xname n : N) (miR miD : modinfo) (spre spost : list stmt) (lvl : N) (mn : path)
+         (npre npost : list (N * N)),
+    (* the project *)
+    parents_first p -> keys_distinct p ->
+    (forall o o', sobj p o <> None -> sobj p o' <> None -> moved_key p R D ix n o = moved_key p R D ix n o' -> o = o') ->
+    (* x is defined by statement ix of module D under the name xname *)
+    R <> D -> ix <> 0 -> sobj p (D, ix, 0) <> None -> sname p (D, ix, 0) = xname ->
+    (* R imports it from D as n, once, and lists n in its __all__ *)
+    modinfo_of p R = Some miR ->
+    m_stmts miR = spre ++ SImportFrom lvl mn (npre ++ (xname, n) :: npost) :: spost ->
+    (forall oa, In oa (npre ++ npost) -> snd oa <> n) ->
+    (forall lv m' nms oa, In (SImportFrom lv m' nms) (spre ++ spost) -> In oa nms -> snd oa <> n) ->
+    In n (exports_of_mod miR) ->
+    static_modname p R lvl mn = Some (skey p (D, 0, 0)) ->
+    (* D makes no from-imports and does not export x itself *)
+    modinfo_of p D = Some miD ->
+    (forall st, In st (m_stmts miD) -> local_stmt st = true) ->
+    (forall a, last_all (m_stmts miD) None = Some a -> ~ In xname a) ->
+    (* no other import of the project re-exports *)
+    (forall m mi st, modinfo_of p m = Some mi -> In st (m_stmts mi) ->
+       match st with
+       | SImportFrom _ _ nms => forall oa, In oa nms -> In (snd oa) (exports_of_mod mi) -> m = R /\ snd oa = n
+       | SImportStar _ _ => exports_of_mod mi = []
+       | _ => True
+       end) ->
+    forall sigma, Permutation sigma (module_ids p) ->
+    exists s, run_state p sigma = Ok s /\
+      (forall k e, reg_entry s k = Some e <->
+                   exists o si, sobj p o = Some si /\ moved_key p R D ix n o = k /\ e = (s_tag si, s_kind si, s_doc si)) /\
+      (exists names, contents_view s (skey p (D, 0, 0)) = Some names /\ ~ In xname names) /\
+      (exists names, contents_view s (skey p (R, 0, 0)) = Some names /\ In n names) /\
+      alias_view s (skey p (D, 0, 0)) xname = Some (moved_key p R D ix n (D, ix, 0)).
+Proof.
+  intros p R D ix xname n miR miD spre spost lvl mn npre npost Hwf H0 H1 HRD Hix Hxd Hxn HRm HRs Ho1 Ho2 Hexp Hres HDm HDl HDa Honly
+         sigma Hperm.
+  exact (moved_static p R D ix xname n Hwf H0 H1 HRD Hix Hxd Hxn miR miD spre spost lvl mn npre npost HRm HRs Ho1 Ho2 Hexp Hres
+                      HDm HDl HDa Honly sigma Hperm).
+Qed.
+
+(* A module or class scope c whose alias map sends the name a to k1, the name under which the moved object xo is
+   registered, and that does not define a itself: the name a, `class C(a)` and a link to a reach xo. *)
+Theorem C07_reach_via_reexporter_partial :
+  forall (s : state) (c : oid) (cb : obj) (a : N) (k1 : path) (xo : oid),
+    dfuel s <> 0%nat -> objs s c = Some cb -> is_module_tag (o_tag cb) = true ->
+    nget a (o_contents cb) = None -> nget a (o_alias cb) = Some k1 -> pget k1 (allobjs s) = Some xo ->
+    expand_name s c [a] = k1 /\ resolve_name s c [a] = Some xo /\ link_to s c [a] = Some xo.
+Proof. exact reach_by_alias. Qed.
+
+(* A scope that knows the defining module D under the alias d (`import D as d`): d.x is expanded through the alias
+   that the move left in D. *)
+Theorem C07_reach_via_module_alias_partial :
+  forall (s : state) (c : oid) (cb : obj) (d : N) (kD : path) (Dm : oid) (db : obj) (x : N) (k1 : path) (xo : oid),
+    dfuel s <> 0%nat -> objs s c = Some cb -> is_module_tag (o_tag cb) = true ->
+    nget d (o_contents cb) = None -> nget d (o_alias cb) = Some kD -> pget kD (allobjs s) = Some Dm ->
+    objs s Dm = Some db -> is_module_tag (o_tag db) = true ->
+    nget x (o_contents db) = None -> nget x (o_alias db) = Some k1 -> k1 <> [x] -> pget k1 (allobjs s) = Some xo ->
+    expand_name s c [d; x] = k1 /\ resolve_name s c [d; x] = Some xo /\ link_to s c [d; x] = Some xo.
+Proof. exact reach_by_module_alias. Qed.
+
+(* System.find_object with the outdated qualified name h.x of an object moved out of the root module h. *)
+Theorem C07_find_object_old_name_partial :
+  forall (s : state) (h : N) (Dm : oid) (db : obj) (x : N) (k1 : path) (xo : oid),
+    dfuel s <> 0%nat -> pget [h; x] (allobjs s) = None ->
+    find (fun r => match objs s r with Some rb => N.eqb (o_name rb) h | None => false end) (roots s) = Some Dm ->
+    objs s Dm = Some db -> is_module_tag (o_tag db) = true ->
+    nget x (o_contents db) = None -> nget x (o_alias db) = Some k1 -> pget k1 (allobjs s) = Some xo ->
+    find_object s [h; x] = (1, Some xo).
+Proof. exact find_object_old_root. Qed.
+
+(* the three statements above are about states that exist: the final state of the sibling re-export
+   _impl.py: class Foo      api.py: from _impl import Foo ; __all__ = ['Foo']
+   user.py: from api import Foo ; import _impl as d ; class U1(Foo) ; class U2(d.Foo)
+   names: Foo 1, _impl 2 (+ underscore bit), api 3, user 4, d 5, U1 6, U2 7 *)
+Definition reach_project : project :=
+  [ {| m_name := 524290; m_parent := None; m_pkg := false; m_doc := 0; m_stmts := [SClass 1 0 [] []] |};
+    {| m_name := 3; m_parent := None; m_pkg := false; m_doc := 0;
+       m_stmts := [SImportFrom 0 [524290] [(1, 1)]; SAll [1]] |};
+    {| m_name := 4; m_parent := None; m_pkg := false; m_doc := 0;
+       m_stmts := [SImportFrom 0 [3] [(1, 1)]; SImport [524290] 5; SClass 6 0 [[1]] []; SClass 7 0 [[5; 1]] []] |} ].
+
+Example C07_reach_nonvacuous :
+  forall sigma, In sigma [[0; 1; 2]; [0; 2; 1]; [1; 0; 2]; [1; 2; 0]; [2; 0; 1]; [2; 1; 0]] ->
+    run_view reach_project sigma
+      (fun s => (bases_view s [4; 6], bases_view s [4; 7], fst (find_object s [524290; 1]),
+                 match pget [4] (allobjs s) with
+                 | Some c => Some (expand_name s c [1], expand_name s c [5; 1])
+                 | None => None end)) =
+    Some (Some [([3; 1], Some [3; 1])], Some [([3; 1], Some [3; 1])], 1, Some ([3; 1], [3; 1])).
+Proof.
+  intros sigma H. repeat (destruct H as [<-|H]; [vm_compute; reflexivity|]). destruct H.
+Qed.
 
 (* pkg/__init__.py: from ._impl import Foo ; __all__ = ['Foo']
    pkg/_impl.py   : class Foo: def m(self)
@@ -16,6 +131,32 @@ Definition stale_project : project :=
        m_stmts := [SClass 10 1 [] [(0, 12, 0)]] |};
     {| m_name := 3; m_parent := Some 0; m_pkg := false; m_doc := 0;
        m_stmts := [SImportFrom 0 [1; 2] [(10, 10)]; SClass 11 0 [[10]] []] |} ].
+
+(* the hypotheses of C07_moved_once hold for this project (R = pkg, D = pkg._impl, x = Foo), and the moved
+   names are pkg.Foo and pkg.Foo.m *)
+Example C07_hypotheses_satisfiable :
+  let p := stale_project in
+  parents_first p /\ keys_distinct p /\
+  (forall o o', sobj p o <> None -> sobj p o' <> None -> moved_key p 0 1 1 10 o = moved_key p 0 1 1 10 o' -> o = o') /\
+  sobj p (1, 1, 0) <> None /\ sname p (1, 1, 0) = 10 /\
+  static_modname p 0 1 [2] = Some (skey p (1, 0, 0)) /\
+  (forall m mi st, modinfo_of p m = Some mi -> In st (m_stmts mi) ->
+     match st with
+     | SImportFrom _ _ nms => forall oa, In oa nms -> In (snd oa) (exports_of_mod mi) -> m = 0 /\ snd oa = 10
+     | SImportStar _ _ => exports_of_mod mi = []
+     | _ => True
+     end) /\
+  moved_key p 0 1 1 10 (1, 1, 0) = [1; 10] /\ moved_key p 0 1 1 10 (1, 1, 1) = [1; 10; 12] /\ skey p (1, 1, 0) = [1; 2; 10].
+Proof.
+  cbv zeta. split; [apply parents_firstb_sound; vm_compute; reflexivity|].
+  split; [apply keys_distinctb_sound; vm_compute; reflexivity|].
+  split; [apply keysb_sound; vm_compute; reflexivity|].
+  split; [vm_compute; discriminate|].
+  split; [vm_compute; reflexivity|].
+  split; [vm_compute; reflexivity|].
+  split; [apply only_moveb_sound; vm_compute; reflexivity|].
+  split; [vm_compute; reflexivity|]. split; vm_compute; reflexivity.
+Qed.
 
 Definition stale_observation (s : state) :=
   (reg_entry s [1; 10], reg_entry s [1; 2; 10], alias_view s [1; 2] 10,
